@@ -103,13 +103,27 @@ func (r *c11run) resolved(m *Manifest) map[string]string {
 	} else {
 		r.nvar++
 		d := filepath.Join(r.dir, fmt.Sprintf("var%d", r.nvar))
-		plain := Opts{Default: "major", DevDeps: true, MaxDepth: -1, MavenManagement: r.w.Opts.MavenManagement}
+		plain := Opts{Default: "major", DevDeps: true, MaxDepth: -1}
 		o := Execute(r.t, r.w, RunSpec{Kind: "analyse", Dir: d, Manifest: m, Opts: &plain, Pass: true})
 		r.out.Executions++
 		if o.Err == "" && o.An != nil {
 			res = map[string]string{}
 			for _, n := range o.An.Nodes {
 				res[n[0]] = n[1]
+			}
+			if r.w.Opts.MavenManagement && m.Pom != nil {
+				// With MavenManagement the library adds a node for every package that is only
+				// managed (project POM, not in the graph).  What such a requirement stands for is
+				// computed here, not taken from the library: the version itself (soft) or the
+				// greatest available version in the range.
+				props := m.props()
+				for _, md := range m.Pom.Mgmt {
+					if _, in := res[md.Name()]; !in {
+						if v, ok := mavenBest(r.w, md.Name(), interpolate(md.V, props)); ok {
+							res[md.Name()] = v
+						}
+					}
+				}
 			}
 		}
 	}
@@ -657,3 +671,7 @@ func tail(s []string, n int) []string {
 	}
 	return s
 }
+
+// CrashProne: the code under test may take the whole worker down (fatal stack overflow in the
+// manifest writer); the coordinator then reports the scenario in progress as a `crash` violation.
+func (C11) CrashProne() bool { return true }
